@@ -22,8 +22,18 @@ from regmachine import Machine
 import zoo
 
 PROPERTY = "C10"
-LEAN_MODULE = "PyOak.Props.C10"
+LEAN_MODULE = "PyOak.Props.C10All"     # imports PyOak.Props.C10, PyOak.Props.C10Extra, PyOak.Props.RegOrder
 THEOREMS = ["PyOak.C10." + t for t in ['heap_frame', 'heap_frame_ext', 'heap_frame_asObj', "heap_frame_asObj'", 'heap_frame_all', 'obj_frame', 'heap_frame_run']]
+# additions after the audit (Props/C10Extra.lean): which operations may change the registry membership of a pre-existing
+# object and of which objects (exactly detach / detach_self / successful replace), and the frame over whole histories
+THEOREMS += ["PyOak.C10X." + t for t in [
+    'reg_frame', 'reg_frame_others', 'reg_frame_get', 'deserAux_reg_keep', 'unregister_exact', 'detach_unregisters',
+    'detachSelf_unregisters', 'replace_unregisters', 'descendants_sound', 'reg_frame_detach', 'detached_frame',
+    'obj_frame_run', 'id_frame_run', 'obj_frame_history']]
+# Props/RegOrder.lean: the heap is well-founded (children are created before parents) along every admissible history, hence
+# the fuel of the model's traversal inside detach() suffices: detach unregisters the node and EVERY node below it
+THEOREMS += ["PyOak.RegOrd." + t for t in [
+    'wf_step', 'wf_run', 'descendants_complete', 'mem_descendants_iff', 'detach_unregisters_below', 'detach_exact']]
 RULE = ("random histories (<= 24 ops) mixing the registry-affecting operations with read-only ones (dfs/bfs/gather, "
         "Tree queries, xpath find/findall/match, pattern match, visitor, transform visitors that rewrite/remove/raise, "
         "as_dict/to_json/to_msgpck/to_yaml and back, ==, hash, __rich__); after each op all fields + hash of all "
